@@ -648,12 +648,29 @@ func (e *engine) doStep(st step) {
 		// with D: the same request is repeated (same lock id) while the first one is still waiting - a
 		// client that retries after a time-out on its side
 		type dupRes struct {
-			hl     *litefs.HaltLock
-			status int
-			err    error
+			hl          *litefs.HaltLock
+			status      int
+			err         error
+			walAtAnswer int64 // size of the primary's WAL file when the answer arrived
 		}
 		var dupDone chan dupRes
 		var dupID int64
+		if st.G.D && e.cfg.WAL {
+			// widen the window in which the primary's grant-time recovery (checkpoint of the local writer's
+			// frames) runs: a grant must not be answered before that recovery is over
+			prevHook := w.n[p].OS.Before
+			var once sync.Once
+			w.n[p].OS.Before = func(ev sim.OSEvent) error {
+				if ev.Label == "CHECKPOINT:DB" {
+					once.Do(func() { time.Sleep(250 * time.Millisecond) })
+				}
+				if prevHook != nil {
+					return prevHook(ev)
+				}
+				return nil
+			}
+			defer func() { w.n[p].OS.Before = prevHook }()
+		}
 		if st.G.D {
 			dupID = tapR.lastHaltID.Load()
 			e.res.Classes[fmt.Sprintf("AcquireRace:repeat-id-known=%v", dupID != 0)]++
@@ -662,6 +679,7 @@ func (e *engine) doStep(st step) {
 				go func() {
 					var d dupRes
 					d.hl, d.status, d.err = w.postHalt(p, w.ids["R"], dupID)
+					d.walAtAnswer = w.walSize(p)
 					dupDone <- d
 				}()
 				time.Sleep(100 * time.Millisecond)
@@ -679,6 +697,10 @@ func (e *engine) doStep(st step) {
 				// two requests with one lock id: both are answered with the same lock (or both refused)
 				rl := w.n["R"].Store.DB(w.db).RemoteHaltLock()
 				firstOK, dupOK := err == nil, d.status == 200 && d.hl != nil
+				if dupOK && e.cfg.WAL && d.walAtAnswer > 0 {
+					e.fail("C13.holder-starts-at-lock-position", "grant-answered-before-the-grant-time-recovery-finished", false,
+						map[string]any{"primary_wal_bytes_when_the_repeated_request_was_granted": d.walAtAnswer, "lock": d.hl})
+				}
 				switch {
 				case firstOK != dupOK:
 					e.fail("C13.same-id-same-lock", fmt.Sprintf("repeated-acquire-while-waiting/first-ok=%v/repeat-ok=%v", firstOK, dupOK), false,
